@@ -220,6 +220,10 @@ pub fn run(tier: &str, seed: u64) -> i32 {
             .collect();
         seqs.push((s, c));
     }
+    // a few very large chunks (tens of MiB when serialised)
+    for (c, tail) in [(1usize << 21, 5usize), ((1 << 21) + 1, 1), (3 << 20, 7)] {
+        seqs.push((vec![Op::Append(c), Op::ChunksAll, Op::IterTake(10), Op::Append(tail), Op::IterAll, Op::ChunksTake(1)], c));
+    }
     let fd_before = fd_count();
     let results = parallel_for(seqs.len(), threads(), |i| run_seq(&seqs[i].0, seqs[i].1, i as u64));
     let fd_after = fd_count();
